@@ -34,7 +34,16 @@ item("subEncTwoMax", SP, r"fn encode.*?\d+\.\.=(\d+) => Self::Two", "SubpacketLe
 # ---- packet/signature/{de,ser}.rs ----------------------------------------------------------
 item("sigV3HashedLen", "src/packet/signature/de.rs", r"i\.read_tag\(&\[(\d+)\]\)\?;", "v3_parser: length of hashed material (reader)")
 item("wrSigV3HashedLen", "src/packet/signature/ser.rs", r"writer\.write_u8\((0x[0-9a-fA-F]+|\d+)\)\?; // 1-octet length of the following hashed material", "to_writer_v3: length of hashed material (writer)")
-item("revKeyLen", "src/packet/signature/ser.rs", r"SubpacketData::RevocationKey\(_\) => (\d+),", "SubpacketData::write_len RevocationKey")
+# (D5e: the fingerprint of a designated revoker is 20 octets for a v4 key, 32 for a v5 / v6 one; before
+#  the repair the parser read 20 and write_len said 22 whatever was stored)
+item("revKeyFpLenA", "src/packet/signature/de.rs",
+     lambda t: (lambda m: int(m.group(1) or m.group(2)) if m else None)(re.search(r"fn revocation_key<B: BufRead>.*?(?:fp\.len\(\) == (\d+) \|\| fp\.len\(\) == \d+|read_arr::<(\d+)>\(\))", t, re.S)),
+     "revocation_key: (first) accepted fingerprint length")
+item("revKeyFpLenB", "src/packet/signature/de.rs",
+     lambda t: (lambda m: int(m.group(1) or m.group(2)) if m else None)(re.search(r"fn revocation_key<B: BufRead>.*?(?:fp\.len\(\) == \d+ \|\| fp\.len\(\) == (\d+)|read_arr::<(\d+)>\(\))", t, re.S)),
+     "revocation_key: (second) accepted fingerprint length")
+flag("fixD5eRevKeyLenTruthful", "src/packet/signature/ser.rs", r"SubpacketData::RevocationKey\(rev_key\) => 2 \+ rev_key\.fingerprint\.len\(\),",
+     "D5e repaired: write_len of a Revocation Key subpacket counts the fingerprint that is stored")
 item("issuerLen", "src/packet/signature/ser.rs", r"SubpacketData::IssuerKeyId\(_\) => (\d+),", "SubpacketData::write_len IssuerKeyId")
 # ---- misc ----------------------------------------------------------------------------------
 item("mdcHashLen", "src/packet/mod_detection_code.rs", r"let hash = input\.read_arr::<(\d+)>\(\)\?;", "ModDetectionCode hash size")
